@@ -10,9 +10,10 @@ na_reasons = {}
 nap = os.path.join(V, "harness", "not_applicable.json")
 if os.path.exists(nap):
     na_reasons = json.load(open(nap))
+claimed = set(open(os.path.join(V, "harness", "claimed.txt")).read().split())
 checks, na = [], []
 for i in ids:
-    if i in P.PROPS and not P.PROPS[i].get("unclaimed"):
+    if i in P.PROPS and i in claimed:
         p = P.PROPS[i]
         checks.append(dict(
             property_id=i, quick_cmd="./check %s --tier quick" % i, thorough_cmd="./check %s --tier thorough" % i,
